@@ -312,3 +312,78 @@ def runProg (H : Heap) : List MOp → MState → Option MState
       | none => runProg H rest { m with result := some false }
 
 end Cocls.Sched
+
+/-! ## the stop handshake between `~scheduler()` / `start()` and `worker_coro`
+
+`request_stop()` sets the stop state and runs the worker's stop callback (`_cond.notify_all()`), at the granularity at
+which it can go wrong: the worker checks `stop_requested()` while holding `_mx` and only later parks itself in
+`wait_until` (which releases `_mx`). -/
+namespace Cocls.Sched.Stop
+
+inductive WPc where
+  | idle      -- not holding `_mx` (loop top / `co_await pause()`)
+  | locked    -- holds `_mx`, `if (state.stop_requested()) break;` passed
+  | waiting   -- parked in `_cond.wait_until(lk, x)` (`_mx` released)
+  | exited    -- left the loop: the worker coroutine finishes, `_glob_state->_fut` resolves
+  deriving DecidableEq, Repr
+
+inductive SPc where
+  | start | flagged | holding | notified | done
+  deriving DecidableEq, Repr
+
+structure St where
+  w : WPc := WPc.idle
+  sp : SPc := SPc.start
+  flag : Bool := false
+  deriving DecidableEq, Repr
+
+inductive Act where
+  | wLock          -- worker: `lk.lock(); if (state.stop_requested()) break;`
+  | wPollResolve   -- worker: `get_expired_lk` gave a promise: resolve it, next iteration (`lk.unlock()`)
+  | wPollWait      -- worker: `get_expired_lk` gave a time point: `_cond.wait_until(lk, x)`
+  | wTimeout       -- worker: the deadline of its wait passes (never, when the vector is empty: `time_point::max()`)
+  | sFlag          -- stopper: `request_stop()` sets the stop state …
+  | sLock          -- … and runs the stop callback: (repaired) `std::lock_guard _(_mx);`
+  | sNotify        -- `_cond.notify_all();`
+  | sUnlock        -- (repaired) end of the callback
+  deriving DecidableEq, Repr
+
+def wakeIfWaiting (w : WPc) : WPc := if w = WPc.waiting then WPc.idle else w
+
+def workerStep (s : St) (a : Act) : Option St :=
+  match a with
+  | Act.wLock =>
+      if s.w = WPc.idle ∧ s.sp ≠ SPc.holding ∧ s.sp ≠ SPc.notified then
+        some { s with w := if s.flag then WPc.exited else WPc.locked }
+      else none
+  | Act.wPollResolve => if s.w = WPc.locked then some { s with w := WPc.idle } else none
+  | Act.wPollWait => if s.w = WPc.locked then some { s with w := WPc.waiting } else none
+  | Act.wTimeout => if s.w = WPc.waiting then some { s with w := WPc.idle } else none
+  | _ => none
+
+/-- the repaired stop callback takes `_mx` around the notification -/
+def step (s : St) (a : Act) : Option St :=
+  match a with
+  | Act.sFlag => if s.sp = SPc.start then some { s with sp := SPc.flagged, flag := true } else none
+  | Act.sLock => if s.sp = SPc.flagged ∧ s.w ≠ WPc.locked then some { s with sp := SPc.holding } else none
+  | Act.sNotify => if s.sp = SPc.holding then some { s with sp := SPc.notified, w := wakeIfWaiting s.w } else none
+  | Act.sUnlock => if s.sp = SPc.notified then some { s with sp := SPc.done } else none
+  | _ => workerStep s a
+
+/-- the callback as it was: `_cond.notify_all()` without the mutex -/
+def stepAsIs (s : St) (a : Act) : Option St :=
+  match a with
+  | Act.sFlag => if s.sp = SPc.start then some { s with sp := SPc.flagged, flag := true } else none
+  | Act.sNotify => if s.sp = SPc.flagged then some { s with sp := SPc.done, w := wakeIfWaiting s.w } else none
+  | Act.sLock => none
+  | Act.sUnlock => none
+  | _ => workerStep s a
+
+/-- a schedule: actions that are not enabled are skipped -/
+def run (f : St → Act → Option St) (s : St) (acts : List Act) : St :=
+  acts.foldl (fun s a => (f s a).getD s) s
+
+/-- the stop request is out and complete, the worker is parked and nothing but its own deadline can wake it -/
+def Lost (s : St) : Prop := s.sp = SPc.done ∧ s.w = WPc.waiting
+
+end Cocls.Sched.Stop
